@@ -117,6 +117,18 @@ CHECKS = {
         design="DESIGN.md 5 (C12)",
         technique="TLA+ spec + TLC; spec->code replay of every state; code->spec trace validation",
     ),
+    "C13": dict(
+        engine="tla-manager",
+        text="MC_ManagerHist.tla is the manager as a state machine over call histories: BeginAdd(frame, estimates, critical filter) -> the step "
+        "machine of Manager.tla -> Commit, with the ground-truth store, the list of frame results and the pooled scene AP as state. TLC explores "
+        "every call sequence up to depth 2-3 over two worlds and checks dataset-untouched, same-inputs-same-outcome (history independence), "
+        "one-frame scene = frame score, ground-truth counts add, order independence of pooled AP under distinct confidences; the as-built aliasing "
+        "switch must yield TLC's counterexample. Every reached history is replayed on one real manager using the manager's own ground-truth frame "
+        "objects, comparing each frame result, the caller's list, ground_truth_frames after every call and get_scene_result.",
+        note="tie-free worlds so each call has one outcome; detection task (tracking predecessor: C05 drivers); depth 2 (quick) / 3 (thorough)",
+        design="DESIGN.md 5 (C13)",
+        technique="TLA+ state machine over call histories + TLC exhaustive; spec->code replay of every history",
+    ),
     "C14": dict(
         engine="tla-labels",
         text="LabelConv.tla holds the documented name tables (pinned from docs/en/perception/label.md) and the conversion laws. TLC checks the pinned "
